@@ -31,6 +31,10 @@ Step(L, over, a, b) ==
        ELSE IF ~over THEN [refused |-> TRUE, leg |-> 0, off |-> 0]
             ELSE [refused |-> FALSE, leg |-> Len(L), off |-> a + b - Cum(L, Len(L) - 1)]   \* continue on the last leg
 
+\* Direction: the azimuth reported with a position is the direction of travel along the leg there - TOWARDS the leg's end
+\* way point while off < leg length, AWAY from the last way point beyond it (off > length of the last leg: overstep; there
+\* the code reports the direction of the continuing great circle as seen from the last way point, which the harness admits
+\* beside the direction at the position itself)
 \* however a mission object was made - constructor, TOML-like dictionary, database query result - its great-circle
 \* distance is the length of the ground track between its airports (a schedule's stated distance is not it)
 MissionEntries == {"constructor", "from_toml", "from_query_result"}
